@@ -191,6 +191,11 @@ class NetSystem:
         self.nproc_threads = len(sched.threads)
         for t in sched.threads:
             t._c06_target, t._c06_args = t._target, t._args
+            t._c06_locals = {}
+            if getattr(t._target, "__name__", "") == "_send_from":
+                gen = t._args[0]
+                t._c06_locals = dict(gen.gi_frame.f_locals) if gen.gi_frame is not None else {}
+                t._c06_code = gen.gi_code
         self.caller = sched.threading.Thread(target=self.run_caller, name="caller")
         self.main_tid = self.caller.tid
         self.caller.start()
@@ -302,7 +307,8 @@ class NetSystem:
             o += [len(m._mailbox), int(m.closed), int(m.killed), int(m.force_killed)]
         o.append(len(self.rows))
         for sv in self.savers_in_thread_order():
-            o += [int(sv.closed), int("exception" in sv.md), self.exc_code(sv.got_exception), len(sv.md["chunks"])]
+            o += [int(sv.closed), int("exception" in sv.md), self.exc_code(sv.got_exception),
+                  sum(ci["n"] for ci in sv.md["chunks"])]
         return " ".join(map(str, o))
 
     def savers_in_thread_order(self):
@@ -365,7 +371,7 @@ class NetSystem:
             "consumer_fired": self.consumer_exc is not None,
             "rows": list(self.rows),
             "savers": [{"name": sv.name, "closed": bool(sv.closed), "exception": "exception" in sv.md,
-                        "got": self.exc_code(sv.got_exception), "chunks": len(sv.md["chunks"])}
+                        "got": self.exc_code(sv.got_exception), "rows": sum(ci["n"] for ci in sv.md["chunks"])}
                        for sv in self.savers_in_thread_order()],
             "killed": [bool(m.killed) for m in self.mbs],
             "force_killed": [bool(m.force_killed) for m in self.mbs],
@@ -417,12 +423,12 @@ def derive_net(system):
                 ttoks += [mb_index[id(tg.keywords["mailboxes"][d])], int(d in ff)]
         elif _saver_of(tg) is not None:
             mb, i = sub_of(args[0])
-            ttoks += [1, mb, i]
+            ttoks += [1, mb, i, int(bool(tg.keywords.get("rechunk")) and bool(_saver_of(tg).allow_rechunk))]
             tid_of_saver[id(_saver_of(tg))] = t.tid
         elif getattr(tg, "__name__", "") == "_send_from":
             out = mb_index[id(tg.__self__)]
             gen = args[0]
-            loc = gen.gi_frame.f_locals if gen.gi_frame is not None else {}
+            loc = t._c06_locals
             iters = loc.get("iters")
             owner = loc.get("self")
             ins = []
@@ -457,7 +463,7 @@ def derive_net(system):
                 if getattr(t, "_c06_owner", None) is obj:
                     ftid = t.tid
                 tg = t._c06_target
-                if getattr(tg, "__name__", "") == "_send_from" and getattr(t._c06_args[0], "gi_code", None) is getattr(obj, "__code__", None):
+                if getattr(tg, "__name__", "") == "_send_from" and getattr(t, "_c06_code", None) is getattr(obj, "__code__", None):
                     ftid = t.tid
             if ftid < 0:
                 raise RuntimeError("no thread for fault %r" % (fault,))
